@@ -666,7 +666,9 @@ func (p *nriPlugin) RemoveContainer(ctx context.Context, pod *api.PodSandbox, co
 	// one that was created but never started). Release what it still holds.
 	if c, ok := m.cache.LookupContainer(container.Id); ok {
 		switch c.GetState() {
-		case cache.ContainerStateCreated, cache.ContainerStateRunning:
+		case cache.ContainerStateExited:
+			// already released by StopContainer
+		default:
 			p.unmapContainer(c)
 			if err := m.policy.ReleaseResources(c); err != nil {
 				nri.Error("%s: failed to release resources of %s: %v", event, c.PrettyName(), err)
